@@ -1,14 +1,366 @@
 /-
   SpecKitV.Drv.ExtConfigGlue — driver operations of the generated region `ConfigGlue` (extension point: `dispatch op` returns
   `some handler` for the operations this file serves).  Mathlib-free.
+
+  Every operation executes the GENERATED definitions of Gen/ConfigGlue.lean at `Float`:
+    cgwin   <win> <psll> <olap> <win_dict> <olap_dict> <parse>      Gen.cg_process_window_config
+    cgsched <scheduler>                                             Gen.cg_process_scheduler_config
+    cgreq   <fs> <nx> <L> <fres>                                    Gen.cg_single_bin_request
+    cgrun   <cfg…> <table of recorded scheduler calls> <ops…>       Gen.cg_plan / cg_compute / cg_compute_single_bin_state over an op sequence,
+                                                                    the Jdes search being Gen.find_Jdes_binary_search on the supplied bin-count table
+  Strings travel hex-encoded (`s:6b6169736572`), floats as 16 hex digits (`r:…`), see `pyval`.
 -/
 import SpecKitV.Drv.Base
+import SpecKitV.Gen.ConfigGlue
 
 namespace Drv.ExtConfigGlue
-open Drv
+open Drv CG
+
+def hexByte (a b : Char) : Option Nat :=
+  match hexVal a, hexVal b with
+  | some x, some y => some (16 * x + y)
+  | _, _ => none
+
+def unhexAux : List Char → Option (List Char)
+  | [] => some []
+  | a :: b :: rest =>
+    match hexByte a b, unhexAux rest with
+    | some n, some cs => some (Char.ofNat n :: cs)
+    | _, _ => none
+  | _ => none
+
+def unhex (s : String) : Option String := (unhexAux s.toList).map String.ofList
+
+def hexStr (s : String) : String :=
+  String.ofList (s.toList.flatMap (fun c => [hexDigit (c.toNat / 16), hexDigit (c.toNat % 16)]))
+
+/-- `n` None · `b:0|1` · `i:<int>` · `r:<16 hex>` · `s:<hex string>` -/
+def pyvalOf (t : String) : Except String (PyVal Float) :=
+  if t == "n" then .ok .none
+  else if t.startsWith "b:" then .ok (.bool ((t.drop 2).toString == "1"))
+  else if t.startsWith "i:" then
+    match (t.drop 2).toString.toInt? with
+    | some z => .ok (.int z)
+    | none => .error s!"pyval:{t}"
+  else if t.startsWith "r:" then
+    match parseHex (t.drop 2).toString with
+    | some u => .ok (.real (Float.ofBits u))
+    | none => .error s!"pyval:{t}"
+  else if t.startsWith "s:" then
+    match unhex (t.drop 2).toString with
+    | some s => .ok (.str s)
+    | none => .error s!"pyval:{t}"
+  else .error s!"pyval:{t}"
+
+def pyval : M (PyVal Float) := do
+  match pyvalOf (← tok) with
+  | .ok v => return v
+  | .error e => throw e
+
+/-- `-` absent, else a PyVal -/
+def optPyval : M (Option (PyVal Float)) := do
+  let t ← tok
+  if t == "-" then return none
+  match pyvalOf t with
+  | .ok v => return some v
+  | .error e => throw e
+
+def optFlt : M (Option Float) := do
+  let t ← tok
+  if t == "n" then return none
+  if t.startsWith "r:" then
+    match parseHex (t.drop 2).toString with
+    | some u => return some (Float.ofBits u)
+    | none => throw s!"optflt:{t}"
+  throw s!"optflt:{t}"
+
+def hexTok : M String := do
+  let t ← tok
+  match unhex t with
+  | some s => return s
+  | none => throw s!"hexstr:{t}"
+
+def winFnOf (t : String) : Except String WinFn :=
+  if t == "npk" then .ok .np_kaiser
+  else if t == "spk" then .ok .sp_kaiser
+  else if t == "han" then .ok .np_hanning
+  else if t.startsWith "c" then
+    match (t.drop 1).toString.toNat? with
+    | some n => .ok (.custom n)
+    | none => .error s!"winfn:{t}"
+  else .error s!"winfn:{t}"
+
+def winFnStr : WinFn → String
+  | .np_kaiser => "npk"
+  | .sp_kaiser => "spk"
+  | .np_hanning => "han"
+  | .custom n => s!"c{n}"
+
+def excStr : PyExc → String
+  | .ValueError => "ValueError"
+  | .TypeError => "TypeError"
+  | .RuntimeError => "RuntimeError"
+  | .KeyError => "KeyError"
+  | .Other => "Other"
+
+def excOf (t : String) : PyExc :=
+  if t == "ValueError" then .ValueError else if t == "TypeError" then .TypeError
+  else if t == "RuntimeError" then .RuntimeError else if t == "KeyError" then .KeyError else .Other
+
+/-- `s:<hex>` | `f:<winfn>` | `o` -/
+def winObj : M (PyObj WinFn) := do
+  let t ← tok
+  if t == "o" then return .other
+  if t.startsWith "s:" then
+    match unhex (t.drop 2).toString with
+    | some s => return .str s
+    | none => throw s!"winobj:{t}"
+  if t.startsWith "f:" then
+    match winFnOf (t.drop 2).toString with
+    | .ok f => return .fn f
+    | .error e => throw e
+  throw s!"winobj:{t}"
+
+def opWin : M String := do
+  let win ← winObj
+  let psll ← optFlt
+  let olap ← pyval
+  let nw ← nat
+  let mut wd : PyDict WinFn := []
+  for _ in [0:nw] do
+    let k ← hexTok
+    match winFnOf (← tok) with
+    | .ok f => wd := wd ++ [(k, f)]
+    | .error e => throw e
+  let no ← nat
+  let mut od : PyDict Float := []
+  for _ in [0:no] do
+    let k ← hexTok
+    let v ← flt
+    od := od ++ [(k, v)]
+  let parse ← optFlt
+  match Gen.cg_process_window_config (α := Float) win psll olap wd od (fun _ => parse) with
+  | .error e => return s!"err {excStr e}"
+  | .ok out =>
+    let wf := match out.win_func with | some f => winFnStr f | none => "-"
+    let al := match out.alpha with | none => "unset" | some none => "none" | some (some a) => s!"r:{fmt a}"
+    let fo := match out.final_olap with | none => "-" | some v => s!"r:{fmt v}"
+    let nm := match out.win_name with | none => "unset" | some none => "none" | some (some s) => s!"s:{hexStr s}"
+    return s!"ok {wf} {al} {fo} {nm}"
+
+def schedIdOf (t : String) : Except String SchedId :=
+  if t == "lpsd_plan" then .ok .lpsd_plan
+  else if t == "ltf_plan" then .ok .ltf_plan
+  else if t == "vectorized_ltf_plan" then .ok .vectorized_ltf_plan
+  else if t == "new_ltf_plan" then .ok .new_ltf_plan
+  else
+    -- c:<name hex or ->:<id>
+    match t.splitOn ":" with
+    | ["c", nm, id] =>
+      match id.toNat? with
+      | none => .error s!"sched:{t}"
+      | some n =>
+        if nm == "-" then .ok (.custom none n)
+        else match unhex nm with
+          | some s => .ok (.custom (some s) n)
+          | none => .error s!"sched:{t}"
+    | _ => .error s!"sched:{t}"
+
+def schedIdStr : SchedId → String
+  | .lpsd_plan => "lpsd_plan"
+  | .ltf_plan => "ltf_plan"
+  | .vectorized_ltf_plan => "vectorized_ltf_plan"
+  | .new_ltf_plan => "new_ltf_plan"
+  | .custom nm n => s!"c:{match nm with | some s => hexStr s | none => "-"}:{n}"
+
+def opSched : M String := do
+  let t ← tok
+  let obj : PyObj SchedId ←
+    if t == "o" then pure PyObj.other
+    else if t.startsWith "s:" then
+      match unhex (t.drop 2).toString with
+      | some s => pure (PyObj.str s)
+      | none => throw s!"schedobj:{t}"
+    else if t.startsWith "f:" then
+      match schedIdOf (t.drop 2).toString with
+      | .ok f => pure (PyObj.fn f)
+      | .error e => throw e
+    else throw s!"schedobj:{t}"
+  match Gen.cg_process_scheduler_config obj with
+  | .error e => return s!"err {excStr e}"
+  | .ok out =>
+    let f := match out.scheduler_func with | some f => schedIdStr f | none => "-"
+    let n := match out.scheduler_name with | some s => hexStr s | none => "-"
+    return s!"ok {f} {n}"
+
+def opReq : M String := do
+  let fs ← flt
+  let nx ← int
+  let L ← optFlt
+  let fres ← optFlt
+  match Gen.cg_single_bin_request (α := Float) fs nx L fres with
+  | .error e => return s!"err {excStr e}"
+  | .ok (segL, r) => return s!"ok {segL} {fmt r}"
+
+/-! ### plan() over an op sequence -/
+
+def pvEq : PyVal Float → PyVal Float → Bool
+  | .none, .none => true
+  | .bool a, .bool b => a == b
+  | .int a, .int b => a == b
+  | .real a, .real b => a.toBits == b.toBits
+  | .str a, .str b => a == b
+  | _, _ => false
+
+def opvEq : Option (PyVal Float) → Option (PyVal Float) → Bool
+  | none, none => true
+  | some a, some b => pvEq a b
+  | _, _ => false
+
+def kwEq (a b : SchedKw Float) : Bool :=
+  opvEq a.N b.N && opvEq a.fs b.fs && opvEq a.olap b.olap && opvEq a.bmin b.bmin && opvEq a.Lmin b.Lmin && opvEq a.Kdes b.Kdes &&
+  opvEq a.num_patch_pts b.num_patch_pts && opvEq a.Jdes b.Jdes
+
+/-- one recorded call of the real scheduler: its keyword arguments, the bin count of its output (`none`: it raised), and — if
+    plan() went on to raise in tail statement `i` with exception `e` — `(i, e)` -/
+structure Row where
+  kw : SchedKw Float
+  nf : Option Int
+  fail : Option (Nat × PyExc)
+
+/-- the driver's plan object: which recorded call produced it, how many tail statements have run on it -/
+structure PObj where
+  row : Nat
+  done : Nat
+
+def findRow (rows : Array Row) (kw : SchedKw Float) : Option Nat :=
+  (List.range rows.size).find? (fun i => match rows[i]? with | some r => kwEq r.kw kw | none => false)
+
+def pvStr : PyVal Float → String
+  | .none => "n"
+  | .bool b => if b then "b:1" else "b:0"
+  | .int z => s!"i:{z}"
+  | .real x => s!"r:{fmt x}"
+  | .str s => s!"s:{hexStr s}"
+
+def opvStr : Option (PyVal Float) → String
+  | none => "-"
+  | some v => pvStr v
+
+def kwStr (k : SchedKw Float) : String :=
+  s!"{opvStr k.N},{opvStr k.fs},{opvStr k.olap},{opvStr k.bmin},{opvStr k.Lmin},{opvStr k.Kdes},{opvStr k.num_patch_pts},{opvStr k.Jdes}"
+
+def opRun : M String := do
+  let nx ← int
+  let fs ← flt
+  let olap ← pyval
+  let bmin ← flt
+  let Lmin ← int
+  let Kdes ← int
+  let nppT ← tok
+  let npp : Option Int := if nppT == "n" then none else nppT.toInt?
+  let order ← int
+  let final_olap ← flt
+  let force ← nat
+  let band ← nat
+  let nameT ← tok
+  let name : Option String := if nameT == "-" then none else unhex nameT
+  let j0 ← int
+  let nrows ← nat
+  let mut rows : Array Row := #[]
+  for _ in [0:nrows] do
+    let kN ← optPyval
+    let kfs ← optPyval
+    let kol ← optPyval
+    let kb ← optPyval
+    let kL ← optPyval
+    let kK ← optPyval
+    let kp ← optPyval
+    let kJ ← optPyval
+    let nfT ← tok
+    let nf : Option Int := if nfT == "raise" then none else nfT.toInt?
+    let fi ← int
+    let fe ← tok
+    let fail : Option (Nat × PyExc) := if fi < 0 then none else some (fi.toNat, excOf fe)
+    rows := rows.push { kw := { N := kN, fs := kfs, olap := kol, bmin := kb, Lmin := kL, Kdes := kK, num_patch_pts := kp, Jdes := kJ }, nf := nf, fail := fail }
+  let sched : SchedFn Float PObj :=
+    { name := name,
+      call := fun kw =>
+        match findRow rows kw with
+        | none => .error .KeyError            -- the generated code asked for a call the real run never made
+        | some i =>
+          match rows[i]? with
+          | some r => (match r.nf with | some _ => .ok { row := i, done := 0 } | none => .error .Other)
+          | none => .error .KeyError }
+  let cfg : PlanCfg Float PObj :=
+    { nx := nx, fs := fs, olap := olap, bmin := bmin, Lmin := Lmin, Kdes := Kdes, num_patch_pts := npp, order := order,
+      final_olap := final_olap, force_target_nf := force != 0, band := if band != 0 then some (0.0, 0.0) else none, scheduler_func := sched }
+  -- the Jdes search: the TRANSLATED utils.find_Jdes_binary_search on the bin counts of the recorded calls
+  let search : SchedFn Float PObj → Int → SchedKw Float → Except PyExc (Option Int) := fun _ target kw =>
+    .ok (Gen.find_Jdes_binary_search (fun J =>
+      match findRow rows { kw with Jdes := some (.int J) } with
+      | some i => (match rows[i]? with | some r => r.nf.getD (-1000000007) | none => -1000000007)
+      | none => -1000000007) target 64)
+  let step : Nat → PObj → PObj × Option PyExc := fun i p =>
+    match rows[p.row]? with
+    | some r =>
+      (match r.fail with
+       | some (fi, e) => if fi == i then (p, some e) else ({ p with done := p.done + 1 }, none)
+       | none => ({ p with done := p.done + 1 }, none))
+    | none => (p, some .KeyError)
+  let nops ← nat
+  let mut st : PlanSt PObj := { jdes := j0, cache := none }
+  let mut out : List String := []
+  for _ in [0:nops] do
+    let o ← tok
+    let (r, st') : OpOut PObj (Nat × Nat) Unit × PlanSt PObj :=
+      if o == "p" then
+        match Gen.cg_plan cfg (fun _ => true) search step st with
+        | (.ok p, st') => (.plan p, st')
+        | (.okNone, st') => (.planNone, st')
+        | (.raised e, st') => (.error e, st')
+      else if o == "c" then Gen.cg_compute cfg (fun _ => true) search step (fun p c => (p.row, c.row)) st
+      else Gen.cg_compute_single_bin_state (fun (_ : Unit) => ()) () st
+    st := st'
+    let rs := match r with
+      | .plan p => s!"P:{p.row}:{p.done}"
+      | .planNone => "N"
+      | .result (a, b) => s!"C:{a}:{b}"
+      | .single _ => "S"
+      | .error e => s!"E:{excStr e}"
+    let cs := match st.cache with | some p => s!"{p.row}:{p.done}" | none => "-"
+    out := out ++ [s!"{rs},{st.jdes},{cs}"]
+  return " ".intercalate out
+
+/-- the keyword arguments the generated plan() hands to the scheduler for a configuration (no table needed): `cgkw <cfg…> <jdes>` -/
+def opKw : M String := do
+  let nx ← int
+  let fs ← flt
+  let olap ← pyval
+  let bmin ← flt
+  let Lmin ← int
+  let Kdes ← int
+  let nppT ← tok
+  let npp : Option Int := if nppT == "n" then none else nppT.toInt?
+  let final_olap ← flt
+  let nameT ← tok
+  let name : Option String := if nameT == "-" then none else unhex nameT
+  let j0 ← int
+  let sched : SchedFn Float (SchedKw Float) := { name := name, call := fun kw => .ok kw }
+  let cfg : PlanCfg Float (SchedKw Float) :=
+    { nx := nx, fs := fs, olap := olap, bmin := bmin, Lmin := Lmin, Kdes := Kdes, num_patch_pts := npp, order := 0,
+      final_olap := final_olap, force_target_nf := false, band := none, scheduler_func := sched }
+  match Gen.cg_plan cfg (fun _ => true) (fun _ _ _ => .ok none) (fun _ p => (p, none)) { jdes := j0, cache := none } with
+  | (.ok kw, _) => return kwStr kw
+  | _ => return "err"
 
 def dispatch (op : String) : Option (M String) :=
   match op with
+  | "cgwin" => some opWin
+  | "cgsched" => some opSched
+  | "cgreq" => some opReq
+  | "cgrun" => some opRun
+  | "cgkw" => some opKw
   | _ => none
 
 end Drv.ExtConfigGlue
